@@ -233,11 +233,13 @@ func searchSeeds(grids []gridOpts) []explore.Seed {
 func c02Grids() []gridOpts {
 	g := gridOpts{N: 3, MaxR: 2, MaxSlots: 1, Policies: []string{"OrderedReady", "Parallel"},
 		Strategies: []gen.Strategy{gen.RU(0), gen.RU(1), gen.OnDelete()}, Histories: coreHistories, DMin: 0, DMax: 1, Limit: 10}
-	if explore.Tier() == "thorough" {
-		g.N, g.MaxR, g.MaxSlots, g.DMax = 4, 3, 2, 2
-		g.Histories = histories
-		g.Strategies = []gen.Strategy{gen.RU(0), gen.RU(1), gen.RU(2), gen.RU(4), gen.OnDelete()}
-	}
+	return []gridOpts{g}
+}
+
+// c02WideGrids is the larger seed grid of the thorough tier (explored with one deviation).
+func c02WideGrids() []gridOpts {
+	g := gridOpts{N: 4, MaxR: 3, MaxSlots: 1, Policies: []string{"OrderedReady", "Parallel"},
+		Strategies: []gen.Strategy{gen.RU(0), gen.RU(1), gen.RU(2), gen.OnDelete()}, Histories: coreHistories, DMin: 0, DMax: 1, Limit: 10}
 	return []gridOpts{g}
 }
 
@@ -264,15 +266,48 @@ func init() {
 			FaultKinds: []string{world.FErr500},
 			FaultOn:    func(c *world.Call) bool { return c.IsWrite() },
 			Goal:       goalC02, Excuse: excuseC02,
-			Deadline: explore.Deadline(110*time.Second, 20*time.Minute)}
+			Deadline: explore.Deadline(110*time.Second, 14*time.Minute)}
 		g := explore.Search(rep, cfg, seeds)
 		g.Analyse()
 		bottoms, excused := g.CheckConvergence(rep)
+		if explore.Tier() == "thorough" && os.Getenv("VERIF_LAG") == "" {
+			// second search: a wider seed grid with one deviation
+			wide := searchSeeds(c02WideGrids())
+			cfg2 := cfg
+			cfg2.D = 1
+			cfg2.Deviations = deviationsFor(devOpts{N: 4, MaxR: 3, MaxSlots: 2, Edits: true, Regress: true})
+			cfg2.Deadline = time.Now().Add(14 * time.Minute)
+			g2 := explore.Search(rep, cfg2, wide)
+			g2.Analyse()
+			b2, e2 := g2.CheckConvergence(rep)
+			rep.Extra["wide_search"] = map[string]interface{}{"seeds": len(wide), "states": len(g2.Nodes), "reconciles": g2.Reconciles, "bottom_sccs": b2, "excused": e2, "deviation_bound": 1, "complete": g2.Complete}
+			for k := range g2.Nodes {
+				rep.Count(k, true, "")
+			}
+			// stale caches: progress closure with lag 1 and 2
+			for _, l := range []int{1, 2} {
+				cfg3 := cfg
+				cfg3.D, cfg3.Lag = 0, l
+				cfg3.Deadline = time.Now().Add(4 * time.Minute)
+				g3 := explore.Search(rep, cfg3, seeds)
+				g3.Analyse()
+				b3, e3 := g3.CheckConvergence(rep)
+				rep.Extra[fmt.Sprintf("lag_%d_search", l)] = map[string]interface{}{"states": len(g3.Nodes), "bottom_sccs": b3, "excused": e3, "complete": g3.Complete}
+			}
+		} else if os.Getenv("VERIF_LAG") == "" {
+			cfg3 := cfg
+			cfg3.D, cfg3.Lag = 0, 1
+			cfg3.Deadline = time.Now().Add(40 * time.Second)
+			g3 := explore.Search(rep, cfg3, seeds)
+			g3.Analyse()
+			b3, e3 := g3.CheckConvergence(rep)
+			rep.Extra["lag_1_search"] = map[string]interface{}{"states": len(g3.Nodes), "bottom_sccs": b3, "excused": e3, "complete": g3.Complete}
+		}
 		desc := ""
 		for _, o := range grids {
 			desc += fmtOpts(o)
 		}
-		rep.Rule = fmt.Sprintf("explicit-state search of the real reconciler in a closed world: %d seed states (%s); progress transitions = reconcile, kubelet forward/finish (all interleavings, deduplicated by canonical state key); deviations (bound D=%d) = user edits (replicas +-1, slot add/remove, scale-in at k, template T1..T3, partition, label), pod regressions (unready, fail, user delete) and an InternalError on any single API write of a reconcile; convergence verdict = every bottom SCC of the progress graph is one quiescent goal state. Non-trivial/distinct = states.", len(seeds), desc, D)
+		rep.Rule = fmt.Sprintf("explicit-state search of the real reconciler in a closed world: %d seed states (%s); progress transitions = reconcile, kubelet forward/finish (all interleavings, deduplicated by canonical state key); deviations (bound D=%d) = user edits (replicas +-1, slot add/remove, scale-in at k, template T1..T3, partition, label), pod regressions (unready, fail, user delete) and an InternalError on any single API write of a reconcile; convergence verdict = every bottom SCC of the progress graph is one quiescent goal state. The same seeds are also explored with stale caches (lag bound 1; thorough: 1 and 2, plus a wider 4-ordinal seed grid with one deviation). Non-trivial/distinct = states.", len(seeds), desc, D)
 		rep.Extra["seeds"] = len(seeds)
 		rep.Extra["reconciles"] = g.Reconciles
 		rep.Extra["bottom_sccs"] = bottoms
